@@ -256,6 +256,56 @@ def check(run: Run) -> None:
 
     check_normalize(run, "R18.4")
 
+    # ---------------------------------------------------------------- R18.2 (quoting is for strings only)
+    n_q = 0
+    for fi in em.functions.values():
+        cfg = None
+        for n in walk_no_nested(fi.node):
+            if isinstance(n, ast.JoinedStr) and len(n.values) >= 2 and isinstance(n.values[0], ast.Constant) and n.values[0].value == '"' and isinstance(n.values[-1], ast.Constant) and n.values[-1].value == '"':
+                n_q += 1
+                cfg = cfg or CFG(fi.node)
+                nodes = cfg.node_for_stmt_containing(n)
+                conds = [c for x in nodes for c in branch_conditions(cfg, x)]
+                def str_only(t, val) -> bool:
+                    ops = t.values if isinstance(t, ast.BoolOp) and isinstance(t.op, ast.And) else [t]
+                    return val is True and any(isinstance(o, ast.Call) and ast.unparse(o.func) == "isinstance" and len(o.args) == 2 and ast.unparse(o.args[1]) == "str" for o in ops)
+                ok = any(str_only(t, val) for t, val in conds)
+                run.instance("R18.2", em.loc(n), f"{fi.qualname}: the value is wrapped in quotes only under isinstance(<value>, str)", ok=ok)
+                if not ok:
+                    run.violation("R18.2", em, fi.qualname, n, "a value is wrapped in quotes without having been tested to be a str: null / true / 3 would be written as the strings \"null\" / \"true\" / \"3\"")
+    if n_q < 3:
+        raise AnalysisError(f"emitter.py: only {n_q} quoting site(s) found")
+
+    # ---------------------------------------------------------------- R18.7 (each request starts from the file, not from an earlier request)
+    run.rule("R18.7", "each changes request is applied to a document parsed afresh from the bytes just read; the tool keeps no document or cache between requests", 2)
+    wt = wm.cls("WriteTool")
+    keeps = []
+    for name, fi in wt.methods.items():
+        for n in walk_no_nested(fi.node):
+            if isinstance(n, ast.Attribute) and isinstance(n.ctx, (ast.Store, ast.Del)) and isinstance(n.value, ast.Name) and n.value.id == "self":
+                keeps.append((fi, n))
+            if isinstance(n, ast.Subscript) and isinstance(n.ctx, (ast.Store, ast.Del)) and isinstance(n.value, ast.Attribute) and isinstance(n.value.value, ast.Name) and n.value.value.id == "self":
+                keeps.append((fi, n))
+    run.instance("R18.7", wm.loc(wt.node), f"WriteTool: {len(wt.methods)} methods store nothing on self", ok=not keeps)
+    for fi, n in keeps:
+        run.violation("R18.7", wm, fi.qualname, n, "octave_write keeps state on the tool object (the server holds one instance): a document or cache surviving a request lets a later request start from a tree an earlier request already modified")
+    ex = wm.func("WriteTool.execute")
+    binds = []
+    for n in walk_no_nested(ex.node):
+        if isinstance(n, ast.Assign) and any(isinstance(t, ast.Name) and t.id == "doc" for t in n.targets):
+            binds.append(n)
+        if isinstance(n, ast.Assign) and any(isinstance(t, ast.Tuple) and t.elts and isinstance(t.elts[0], ast.Name) and t.elts[0].id == "doc" for t in n.targets):
+            binds.append(n)
+    okb = bool(binds)
+    for b in binds:
+        v = b.value
+        src = ast.unparse(v.func) if isinstance(v, ast.Call) else None
+        good = src in ("parse", "parse_with_warnings", "repair", "self._apply_changes", "self._localized_salvage")
+        okb = okb and good
+        if not good:
+            run.violation("R18.7", wm, ex.qualname, b, "the document being amended is obtained from something other than a fresh parse of the file's content (or the gated in-place steps)")
+    run.instance("R18.7", wm.loc(ex.node), f"WriteTool.execute: `doc` is bound {len(binds)} time(s), always from parse / parse_with_warnings / repair / _apply_changes / salvage", ok=okb)
+
     # ---------------------------------------------------------------- R18.6
     cli = run.project.mod("cli.main").func("write")
     writes = list(am.ast_writes(cli, res))
